@@ -463,7 +463,7 @@ func (e *Engine) call(fr *frame, st *State, c *ast.CallExpr, k func(st *State, r
 			for i := off; i < len(argExprs) && i-off < sig.Params().Len(); i++ {
 				if id, ok := argExprs[i].(*ast.Ident); ok && id.Name == "nil" {
 					if ty := e.typeOf(sig.Params().At(i - off).Type()); ty.K != spec.KUnit && ty.K != vs[i].Ty.K {
-						vs[i] = Val{TV: spec.TV{T: e.zero(ty), Ty: ty}}
+						vs[i] = Val{TV: spec.TV{T: e.zeroGo(sig.Params().At(i - off).Type()), Ty: ty}}
 					}
 				}
 			}
@@ -770,11 +770,12 @@ func (e *Engine) inlineWB(caller *frame, st *State, fn *types.Func, decl *ast.Fu
 		a := args[i]
 		if a.T != nil && sx.Eq(a.T, spec.NilNB) { // untyped nil argument: take the parameter's type
 			if pt := e.typeOf(o.Type()); pt.K != spec.KNB && pt.K != spec.KUnit {
-				a = Val{TV: spec.TV{T: e.zero(pt), Ty: pt}}
+				a = Val{TV: spec.TV{T: e.zeroGo(o.Type()), Ty: pt}}
 			}
 		}
 		st.vars[o] = a
 	}
+	e.bindNamedResults(st, decl, nf.info)
 	nres := fn.Type().(*types.Signature).Results().Len()
 	e.mergeN(caller, st, nres, func(kk func(st *State, rets []Val)) {
 		nf.onRet = kk
@@ -895,7 +896,7 @@ func (e *Engine) assign(fr *frame, st *State, lhs ast.Expr, v Val) {
 		if v.Ty.K == spec.KNB && v.T != nil && sx.Eq(v.T, spec.NilNB) && obj != nil && obj.Type() != nil {
 			// an untyped nil takes the type of the variable it is assigned to
 			if want := e.typeOf(obj.Type()); want.K != spec.KUnit && want.K != spec.KNB {
-				v = Val{TV: spec.TV{T: e.zero(want), Ty: want}}
+				v = Val{TV: spec.TV{T: e.zeroGo(obj.Type()), Ty: want}}
 			}
 		}
 		if _, local := st.vars[obj]; !local {
@@ -1230,7 +1231,7 @@ func (e *Engine) stmt(fr *frame, st *State, s ast.Stmt, k func(st *State)) {
 			if len(vs.Values) == 0 {
 				for _, n := range vs.Names {
 					ty := e.typeOf(info.Defs[n].Type())
-					st.vars[info.Defs[n]] = Val{TV: spec.TV{T: e.zero(ty), Ty: ty}}
+					st.vars[info.Defs[n]] = Val{TV: spec.TV{T: e.zeroGo(info.Defs[n].Type()), Ty: ty}}
 				}
 				do(i+1, st)
 				return
@@ -1341,13 +1342,30 @@ func (e *Engine) stmt(fr *frame, st *State, s ast.Stmt, k func(st *State)) {
 				return
 			}
 		}
+		if len(s.Results) == 0 && fr.fn != nil && fr.depth >= 0 {
+			// bare return of a function with named results: their current values
+			if res := fr.fn.Type().(*types.Signature).Results(); res.Len() > 0 && res.At(0).Name() != "" {
+				var vs []Val
+				ok := true
+				for i := 0; i < res.Len(); i++ {
+					v, found := st.vars[res.At(i)]
+					ok = ok && found
+					vs = append(vs, v)
+				}
+				if ok {
+					fr.escaped++
+					fr.onRet(st, vs)
+					return
+				}
+			}
+		}
 		e.evalList(fr, st, s.Results, func(st *State, vs []Val) {
 			if fr.fn != nil {
 				res := fr.fn.Type().(*types.Signature).Results()
 				for i := range vs {
 					if i < res.Len() && vs[i].T != nil && sx.Eq(vs[i].T, spec.NilNB) {
 						if rt := e.typeOf(res.At(i).Type()); rt.K != spec.KNB && rt.K != spec.KUnit {
-							vs[i] = Val{TV: spec.TV{T: e.zero(rt), Ty: rt}}
+							vs[i] = Val{TV: spec.TV{T: e.zeroGo(res.At(i).Type()), Ty: rt}}
 						}
 					}
 				}
@@ -1366,6 +1384,16 @@ func (e *Engine) stmt(fr *frame, st *State, s ast.Stmt, k func(st *State)) {
 		// From here on a fault inside this activation (or its callees) may be caught: the function then returns normally
 		// with the state it had when the faulting statement began (the VM reverts what a faulting callee did). The handler
 		// itself must be free of effects. Modelled by forking a "recovered return" before every later statement (stmts).
+		if id, isId := s.Call.Fun.(*ast.Ident); isId && e.Go64 && len(s.Call.Args) == 0 {
+			// dialect go64: `defer cancel()` of a function value handed out by a library (context.WithCancel, ticker.Stop):
+			// it runs at the exit, changes nothing the contracts speak about, and is not recorded (A10)
+			if vobj, isVar := fr.info.Uses[id].(*types.Var); isVar {
+				if lv, bound := e.lookup(fr, st, vobj); !bound || lv.Fn == nil {
+					k(st)
+					return
+				}
+			}
+		}
 		lit, ok := s.Call.Fun.(*ast.FuncLit)
 		if !ok || len(s.Call.Args) != 0 {
 			panic("defer of a named function is outside the verifier's subset")
@@ -1797,6 +1825,9 @@ func (e *Engine) loopCore(fr *frame, st *State, label string, node ast.Node, ext
 		post(st, func(st *State) {
 			for _, inv := range ls.Invs {
 				for _, g := range smt.SplitGoal(loopEnv(st).Tr(inv.E).T) {
+					if os.Getenv("VERIF_DEBUG_PRESERVE") != "" {
+						fmt.Fprintf(os.Stderr, "preserve inv%d dry=%d goal=%s\n", inv.Ord, e.dry, g.String())
+					}
 					v.add(fmt.Sprintf("%s#loop%d.inv%d.preserve", base, ord, inv.Ord), nil, inv.Text, v.query(st, nil, g))
 				}
 			}
